@@ -26,17 +26,17 @@ mod verif_c15 {
     }
 
     // @harness id=C15 tier=quick timeout=1800 mem=10
-    // @bounds HumanCount(v) for every v < 12_000 (1..=5 digits, one separator): digits and separators compared one by one
+    // @bounds HumanCount(v) for every v < 3_000 (1..=4 digits, one separator): digits and separators compared one by one
     #[kani::proof]
     #[kani::unwind(28)]
     fn c15_human_count_small() {
         let v: u64 = kani::any();
-        kani::assume(v < 12_000);
+        kani::assume(v < 3_000);
         let mut out: Buf<40> = Buf::new();
         assert!(render(&HumanCount(v), &mut out).is_ok());
         assert!(!out.ovf);
         digits_and_commas(&out, v);
-        kani::cover!(v == 11_999);
+        kani::cover!(v == 2_999);
         kani::cover!(v == 0);
     }
 
@@ -95,12 +95,12 @@ mod verif_c15 {
     }
 
     // @harness id=C15 tier=quick timeout=1800 mem=10
-    // @bounds FormattedDuration for every whole-second value < 2^18 s (~3 days) and any sub-second part: [Dd ]HH:MM:SS digit by digit
+    // @bounds FormattedDuration for every whole-second value < 2^17 s (~1.5 days) and any sub-second part: [Dd ]HH:MM:SS digit by digit
     #[kani::proof]
     #[kani::unwind(28)]
     fn c15_formatted_duration() {
         let secs: u64 = kani::any();
-        kani::assume(secs < (1 << 18));
+        kani::assume(secs < (1 << 17));
         let nanos: u32 = kani::any();
         kani::assume(nanos < 1_000_000_000);
         let mut out: Buf<40> = Buf::new();
@@ -129,7 +129,7 @@ mod verif_c15 {
             }
             assert!(val == d && out.n > 10);
         }
-        kani::cover!(d == 3);
+        kani::cover!(d == 1);
         kani::cover!(d == 0 && h == 23 && m == 59 && s == 59);
     }
 
@@ -387,7 +387,7 @@ mod verif_c15 {
         grouping(false, 1, false, 0);
     }
 
-    // @harness id=C15 tier=quick timeout=1800 mem=10
+    // @harness id=C15 tier=thorough timeout=1800 mem=10
     // @bounds HumanFloatCount grouping with the number rendering replaced by "-" + 1 symbolic digits: sign first, separators exactly every third digit from the right, fraction trimmed of trailing zeros
     #[kani::proof]
     #[kani::unwind(15)]
@@ -396,7 +396,7 @@ mod verif_c15 {
         grouping(true, 1, false, 0);
     }
 
-    // @harness id=C15 tier=quick timeout=1800 mem=10
+    // @harness id=C15 tier=thorough timeout=1800 mem=10
     // @bounds HumanFloatCount grouping with the number rendering replaced by "" + 3 symbolic digits: sign first, separators exactly every third digit from the right, fraction trimmed of trailing zeros
     #[kani::proof]
     #[kani::unwind(15)]
@@ -414,7 +414,7 @@ mod verif_c15 {
         grouping(true, 3, false, 0);
     }
 
-    // @harness id=C15 tier=quick timeout=1800 mem=10
+    // @harness id=C15 tier=thorough timeout=1800 mem=10
     // @bounds HumanFloatCount grouping with the number rendering replaced by "" + 4 symbolic digits: sign first, separators exactly every third digit from the right, fraction trimmed of trailing zeros
     #[kani::proof]
     #[kani::unwind(15)]
@@ -423,7 +423,7 @@ mod verif_c15 {
         grouping(false, 4, false, 0);
     }
 
-    // @harness id=C15 tier=quick timeout=1800 mem=10
+    // @harness id=C15 tier=thorough timeout=1800 mem=10
     // @bounds HumanFloatCount grouping with the number rendering replaced by "-" + 4 symbolic digits: sign first, separators exactly every third digit from the right, fraction trimmed of trailing zeros
     #[kani::proof]
     #[kani::unwind(15)]
@@ -432,7 +432,7 @@ mod verif_c15 {
         grouping(true, 4, false, 0);
     }
 
-    // @harness id=C15 tier=quick timeout=1800 mem=10
+    // @harness id=C15 tier=thorough timeout=1800 mem=10
     // @bounds HumanFloatCount grouping with the number rendering replaced by "" + 6 symbolic digits: sign first, separators exactly every third digit from the right, fraction trimmed of trailing zeros
     #[kani::proof]
     #[kani::unwind(15)]
@@ -450,7 +450,7 @@ mod verif_c15 {
         grouping(true, 6, false, 0);
     }
 
-    // @harness id=C15 tier=quick timeout=1800 mem=10
+    // @harness id=C15 tier=thorough timeout=1800 mem=10
     // @bounds HumanFloatCount grouping with the number rendering replaced by "" + 7 symbolic digits: sign first, separators exactly every third digit from the right, fraction trimmed of trailing zeros
     #[kani::proof]
     #[kani::unwind(15)]
@@ -459,7 +459,7 @@ mod verif_c15 {
         grouping(false, 7, false, 0);
     }
 
-    // @harness id=C15 tier=quick timeout=1800 mem=10
+    // @harness id=C15 tier=thorough timeout=1800 mem=10
     // @bounds HumanFloatCount grouping with the number rendering replaced by "-" + 7 symbolic digits: sign first, separators exactly every third digit from the right, fraction trimmed of trailing zeros
     #[kani::proof]
     #[kani::unwind(15)]
@@ -468,7 +468,7 @@ mod verif_c15 {
         grouping(true, 7, false, 0);
     }
 
-    // @harness id=C15 tier=quick timeout=1800 mem=10
+    // @harness id=C15 tier=thorough timeout=1800 mem=10
     // @bounds HumanFloatCount grouping with the number rendering replaced by "" + 4 symbolic digits + '.' + 0 symbolic digits: sign first, separators exactly every third digit from the right, fraction trimmed of trailing zeros
     #[kani::proof]
     #[kani::unwind(15)]
@@ -486,7 +486,7 @@ mod verif_c15 {
         grouping(false, 4, true, 3);
     }
 
-    // @harness id=C15 tier=quick timeout=1800 mem=10
+    // @harness id=C15 tier=thorough timeout=1800 mem=10
     // @bounds HumanFloatCount grouping with the number rendering replaced by "" + 3 symbolic digits + '.' + 2 symbolic digits: sign first, separators exactly every third digit from the right, fraction trimmed of trailing zeros
     #[kani::proof]
     #[kani::unwind(15)]
@@ -495,7 +495,7 @@ mod verif_c15 {
         grouping(false, 3, true, 2);
     }
 
-    // @harness id=C15 tier=quick timeout=1800 mem=10
+    // @harness id=C15 tier=thorough timeout=1800 mem=10
     // @bounds HumanFloatCount grouping with the number rendering replaced by "-" + 4 symbolic digits + '.' + 0 symbolic digits: sign first, separators exactly every third digit from the right, fraction trimmed of trailing zeros
     #[kani::proof]
     #[kani::unwind(15)]
@@ -504,7 +504,7 @@ mod verif_c15 {
         grouping(true, 4, true, 0);
     }
 
-    // @harness id=C15 tier=quick timeout=1800 mem=10
+    // @harness id=C15 tier=thorough timeout=1800 mem=10
     // @bounds HumanFloatCount grouping with the number rendering replaced by "-" + 4 symbolic digits + '.' + 3 symbolic digits: sign first, separators exactly every third digit from the right, fraction trimmed of trailing zeros
     #[kani::proof]
     #[kani::unwind(15)]
@@ -513,7 +513,7 @@ mod verif_c15 {
         grouping(true, 4, true, 3);
     }
 
-    // @harness id=C15 tier=quick timeout=1800 mem=10
+    // @harness id=C15 tier=thorough timeout=1800 mem=10
     // @bounds HumanFloatCount grouping with the number rendering replaced by "-" + 3 symbolic digits + '.' + 2 symbolic digits: sign first, separators exactly every third digit from the right, fraction trimmed of trailing zeros
     #[kani::proof]
     #[kani::unwind(15)]
